@@ -24,6 +24,8 @@ pub struct Item {
     pub lifetime: Option<Vec<u64>>,
     pub flush_marked: bool,
     pub line: usize,
+    /// property that speaks about the command kind that wrote this version
+    pub by: &'static str,
 }
 
 #[derive(Clone, Debug, PartialEq)]
@@ -163,6 +165,7 @@ impl Oracle {
     #[allow(clippy::too_many_arguments)]
     fn stored(&mut self, line: usize, key: &[u8], value: Vec<u8>, flags: u32, ack_cas: Option<u64>, must: Option<u64>, may: Option<u64>, ttl: Ttl, continues: bool, excluded: bool) {
         let prev = if continues { self.item(key).cloned() } else { None };
+        let by: &'static str = self.last.as_ref().map(|l| l.1).unwrap_or("C01");
         let mut lifetime = if excluded {
             None
         } else {
@@ -182,11 +185,11 @@ impl Oracle {
                     }
                     l.push(c);
                 }
-                self.keys.insert(key.to_vec(), KState::Live(Item { value, flags, cas: c, must_miss_from: must, may_miss_from: may, ttl, lifetime, flush_marked: false, line }));
+                self.keys.insert(key.to_vec(), KState::Live(Item { value, flags, cas: c, must_miss_from: must, may_miss_from: may, ttl, lifetime, flush_marked: false, line, by }));
             }
             None => {
                 // quiet success: the new cas is learnt from the next hit; uniqueness is checked then
-                self.keys.insert(key.to_vec(), KState::Live(Item { value, flags, cas: 0, must_miss_from: must, may_miss_from: may, ttl, lifetime, flush_marked: false, line }));
+                self.keys.insert(key.to_vec(), KState::Live(Item { value, flags, cas: 0, must_miss_from: must, may_miss_from: may, ttl, lifetime, flush_marked: false, line, by }));
             }
         }
     }
@@ -272,10 +275,10 @@ impl Oracle {
                     Some(r) => {
                         let rflags = if r.extras.len() == 4 { u32::from_be_bytes(r.extras[..].try_into().unwrap()) } else { 0 };
                         if r.value != it.value {
-                            self.viol(&["C01"], line, format!("get {} returns value {} but the last acknowledged mutation (line {}) stored {}", kx, wire::hexd(&r.value), it.line, wire::hexd(&it.value)));
+                            self.viol(&[it.by], line, format!("get {} returns value {} but the last acknowledged mutation (line {}) stored {}", kx, wire::hexd(&r.value), it.line, wire::hexd(&it.value)));
                         }
                         if r.extras.len() == 4 && rflags != it.flags {
-                            self.viol(&["C01"], line, format!("get {} returns flags {:#x} but the last acknowledged mutation (line {}) left flags {:#x}", kx, rflags, it.line, it.flags));
+                            self.viol(&[it.by], line, format!("get {} returns flags {:#x} but the last acknowledged mutation (line {}) left flags {:#x}", kx, rflags, it.line, it.flags));
                         }
                         if r.cas == 0 {
                             self.viol(&["C01"], line, format!("get {} reports cas 0", kx));
@@ -309,7 +312,7 @@ impl Oracle {
                     let rflags = if r.extras.len() == 4 { u32::from_be_bytes(r.extras[..].try_into().unwrap()) } else { 0 };
                     self.keys.insert(
                         key.to_vec(),
-                        KState::Live(Item { value: r.value.clone(), flags: rflags, cas: r.cas, must_miss_from: None, may_miss_from: Some(0), ttl: Ttl::Unknown, lifetime: None, flush_marked: false, line }),
+                        KState::Live(Item { value: r.value.clone(), flags: rflags, cas: r.cas, must_miss_from: None, may_miss_from: Some(0), ttl: Ttl::Unknown, lifetime: None, flush_marked: false, line, by: "C01" }),
                     );
                 }
                 None => {
@@ -600,7 +603,7 @@ impl Oracle {
                             let fl = self.item(key).map(|i| i.flags);
                             self.keys.insert(
                                 key.to_vec(),
-                                KState::Live(Item { value: rv.to_string().into_bytes(), flags: fl.unwrap_or(0), cas: ack.unwrap_or(0), must_miss_from: None, may_miss_from: Some(now), ttl: Ttl::Unknown, lifetime: None, flush_marked: false, line }),
+                                KState::Live(Item { value: rv.to_string().into_bytes(), flags: fl.unwrap_or(0), cas: ack.unwrap_or(0), must_miss_from: None, may_miss_from: Some(now), ttl: Ttl::Unknown, lifetime: None, flush_marked: false, line, by: "C01" }),
                             );
                             if fl.is_none() {
                                 self.keys.insert(key.to_vec(), KState::Unknown);
